@@ -1707,8 +1707,10 @@ fn constructors(t: &mut Tape, ctx: &mut Ctx) -> R {
         16 => {
             let n = t.edgy_u32();
             let lt = match t.below(4) {
-                0 => guard::guard("LockTime::from_height", 0, || LockTime::from_height(if n % 4 == 1 { 499_999_999 } else { n % 500_000_000 }))?.ok(),
-                1 => guard::guard("LockTime::from_time", 0, || LockTime::from_time(if n % 4 == 0 { 500_000_000 } else { n | 0x2000_0000 }))?.ok(),
+                // n % 4 == 2: the raw number, also outside the unit's domain — the constructor may refuse it, but a
+                // value it does return must survive the round trip like any other
+                0 => guard::guard("LockTime::from_height", 0, || LockTime::from_height(if n % 4 == 1 { 499_999_999 } else if n % 4 == 2 { n } else { n % 500_000_000 }))?.ok(),
+                1 => guard::guard("LockTime::from_time", 0, || LockTime::from_time(if n % 4 == 0 { 500_000_000 } else if n % 4 == 2 { n } else { n | 0x2000_0000 }))?.ok(),
                 2 => Some(guard::guard("LockTime::from_consensus", 0, || LockTime::from_consensus(n))?),
                 _ => Some(LockTime::ZERO),
             };
